@@ -505,6 +505,14 @@ class ExtLib:
             return self.derived_array("argsort", [arr], arr.shape, DType("int64"), node, ms)
         if m == "sum":
             return self.c_numpy_sum([arr] + list(args), kwargs, node, ms)
+        if m in ("min", "max") and not args and not kwargs:
+            # whole-view reduction: an explicit symbol naming the reduced view (which component / slice it is)
+            self.I.trace.append(Op("NumpyOp", fn="a" + m, reads=[arr], out=None, meta={}, where=self.I.where(node, ms),
+                                   stack=tuple(self.I.call_stack), args=[arr]))
+            name = "a%s(%s)" % (m, arr.describe())
+            self.reductions = getattr(self, "reductions", {})
+            self.reductions[name] = ("a" + m, arr)
+            return psym(name)
         if m == "fill":
             self.I.trace.append(Op("SliceAssign", dst=arr, src=args[0], aug=None, where=self.I.where(node, ms),
                                    stack=tuple(self.I.call_stack), node=node))
